@@ -177,7 +177,11 @@ def run(spec):
 
   def observe(lst):
     try:
-      return ('ok', _pipeline(lst))
+      given = list(lst)
+      out = _pipeline(lst)
+      if lst != given:
+        return ('crash', 'input list modified')
+      return ('ok', out)
     except ValueError as e:
       return ('ValueError', str(e)[:80])
     except Exception as e:  # pylint: disable=broad-except
